@@ -122,7 +122,9 @@ func genHostileRFC6902(r *core.RNG, doc map[string]any) []any {
 	oth := pointersOf(doc, other)
 	grammar := []string{"/publicKey", "/service", "/publicKey/0", "/service/0", "/publicKey/-", "/service/-", "/publicKey/0/id",
 		"/service/0/serviceEndpoint", "/publicKey/1", "/publicKeys", "/services", "/publicKeyX", "/serviceEndpoint", "/public~0Key", "/public~1Key",
-		"/service~1", "", "/", "/publicKey/0/publicKeyJwk/x", "/service/0/id", "/alsoKnownAs", "/alsoKnownAs/0", "/note", "/n2", "/PublicKey", "/Service"}
+		"/service~1", "", "/", "/publicKey/0/publicKeyJwk/x", "/service/0/id", "/alsoKnownAs", "/alsoKnownAs/0", "/note", "/n2", "/PublicKey", "/Service",
+		// pointers that do not start with a slash (not JSON pointers at all; a lenient library may still resolve them)
+		"publicKey", "service", "x/publicKey", "x/service", "x/publicKey/0", "x/service/0/id", "./publicKey", " /service", "#/publicKey"}
 	pick := func() string {
 		switch r.Intn(4) {
 		case 0:
